@@ -386,6 +386,9 @@ func (g *storageGen) next() (sdk.Msg, map[string]interface{}, func(pre, post stS
 		if r.Intn(4) == 0 {
 			forAddr = g.user()
 		}
+		if r.Intn(12) == 0 { // a beneficiary the chain has never seen (its account is created on the fly)
+			forAddr = sdk.AccAddress([]byte(fmt.Sprintf("fresh-beneficiary-%03d", r.Intn(1000)))).String()
+		}
 		days := []int64{30, 30, 31, 60, 365, 366, 400, 1000, 29, 1, 0, -5, 106752, 1 << 40}[r.Intn(14)]
 		if r.Intn(3) > 0 {
 			days = int64(30 + r.Intn(700))
@@ -444,6 +447,9 @@ func (g *storageGen) next() (sdk.Msg, map[string]interface{}, func(pre, post stS
 		maxProofs := int64(1 + r.Intn(3))
 		if r.Intn(7) == 0 {
 			size = []int64{0, -5, 1, 1 << 62, 9223372036854775807, 10}[r.Intn(6)]
+		}
+		if r.Intn(6) == 0 { // declared sizes of the order of a plan: the remaining space runs out
+			size = []int64{300_000_000, 499_999_999, 500_000_000, 999_999_999, 1_000_000_000, 1_000_000_001, 2_500_000_000, 19_000_000_000}[r.Intn(8)]
 		}
 		if r.Intn(9) == 0 {
 			maxProofs = []int64{0, -1, 1 << 40, 3, 9223372036854775807}[r.Intn(5)]
@@ -637,6 +643,12 @@ func (g *storageGen) next() (sdk.Msg, map[string]interface{}, func(pre, post stS
 			map[string]interface{}{"attest": map[string]interface{}{"creator": creator, "prover": other, "merkle": "05", "owner": other, "start": 3}}, nil
 	default:
 		creator := g.user()
+		provs := c.A.StorageKeeper.GetAllProviders(c.Ctx())
+		var prov *sttypes.Providers
+		if len(provs) > 0 && r.Intn(4) > 0 { // mostly a registered provider managing its own record
+			prov = &provs[r.Intn(len(provs))]
+			creator = prov.Address
+		}
 		switch r.Intn(5) {
 		case 0:
 			ip := g.ips[r.Intn(len(g.ips))]
@@ -652,6 +664,9 @@ func (g *storageGen) next() (sdk.Msg, map[string]interface{}, func(pre, post stS
 			return &sttypes.MsgAddClaimer{Creator: creator, ClaimAddress: cl}, map[string]interface{}{"addClaimer": map[string]interface{}{"creator": creator, "claimer": cl}}, nil
 		default:
 			cl := g.user()
+			if prov != nil && len(prov.AuthClaimers) > 0 && r.Intn(4) > 0 {
+				cl = prov.AuthClaimers[r.Intn(len(prov.AuthClaimers))]
+			}
 			return &sttypes.MsgRemoveClaimer{Creator: creator, ClaimAddress: cl}, map[string]interface{}{"removeClaimer": map[string]interface{}{"creator": creator, "claimer": cl}}, nil
 		}
 	}
